@@ -166,6 +166,7 @@ Section Bodies.
   Variable str_of_json : json -> str.           (* '%s' % value, for a JSON value that is not a string *)
   Variable summary_match : str -> option (str * str).   (* summary_re.match(name): None, or groups 1 and 2 *)
   Variable pick_table : str -> list str -> str.         (* identifiers.pick_table_ident(name, avoid=set) *)
+  Variable re_sub : str -> str -> str -> str.           (* re.sub(pattern, repl, text); repl = [] for a function *)
 
   (* json.loads on a cell: a cell that is not a string raises TypeError before any parsing *)
   Definition loads (v : val) : res (option json) :=
@@ -668,6 +669,22 @@ Section Bodies.
        | r :: rest => bind (pair_key r) (fun k => go rest (pd_set k r acc))
        end) rs [].
 
+  (* the actions for one removed column / renamed table / rewritten formula *)
+  Definition m7_tname (tables_map : list (val * record)) (c : record) : res str :=
+    bind (fld (zs "parentId") c) (fun p => bind (hash_key p) (fun p =>
+    match pd_get p tables_map with
+    | Some t => bind (fld (zs "tableId") t) (as_str DomainErr)
+    | None => Err KeyErr
+    end)).
+  Definition m7_remove_act (tables_map : list (val * record)) (c : record) : res action :=
+    bind (m7_tname tables_map c) (fun tn => bind (fld (zs "colId") c) (fun cid => bind (as_str DomainErr cid) (fun cid =>
+    Ok (RemoveColumn tn cid)))).
+  Definition m7_rename_act (tr : record * str) : res action :=
+    bind (fld (zs "tableId") (fst tr)) (fun n => bind (as_str DomainErr n) (fun n => Ok (RenameTable n (snd tr)))).
+  Definition m7_modify_act (f : record * str * str) : res action :=
+    bind (fld (zs "colId") (fst (fst f))) (fun cid => bind (as_str DomainErr cid) (fun cid =>
+    Ok (ModifyColumn (snd (fst f)) cid [(zs "formula", VStr (snd f))]))).
+
   Definition m7 (s : tds) : res (list action) :=
     bind (has_col T_TABLES (zs "summarySourceTable") s) (fun h1 =>
     bind (has_col T_COLUMNS (zs "summarySourceCol") s) (fun h2 =>
@@ -681,18 +698,9 @@ Section Bodies.
     let by_ref := fold_left (fun acc c => pd_set (rid_val (fst c)) c acc) columns [] in
     bind (pair_index_rec columns) (fun by_tc =>
     bind (m7_loop name_to_ref columns by_ref by_tc tvals (mk7 (map fst name_to_ref) [] [] [] [] [])) (fun st =>
-    let tname (c : record) : res str :=
-      bind (fld (zs "parentId") c) (fun p => bind (hash_key p) (fun p =>
-      match pd_get p tables_map with
-      | Some t => bind (fld (zs "tableId") t) (as_str DomainErr)
-      | None => Err KeyErr
-      end)) in
-    bind (mapM (fun c => bind (tname c) (fun tn => bind (fld (zs "colId") c) (fun cid => bind (as_str DomainErr cid) (fun cid =>
-                         Ok (RemoveColumn tn cid))))) (s7_remove st)) (fun removes =>
-    bind (mapM (fun tr => bind (fld (zs "tableId") (fst tr)) (fun n => bind (as_str DomainErr n) (fun n =>
-                          Ok (RenameTable n (snd tr))))) (s7_renames st)) (fun renames =>
-    bind (mapM (fun f => bind (fld (zs "colId") (fst (fst f))) (fun cid => bind (as_str DomainErr cid) (fun cid =>
-                         Ok (ModifyColumn (snd (fst f)) cid [(zs "formula", VStr (snd f))])))) (s7_formulas st)) (fun modifies =>
+    bind (mapM (m7_remove_act tables_map) (s7_remove st)) (fun removes =>
+    bind (mapM m7_rename_act (s7_renames st)) (fun renames =>
+    bind (mapM m7_modify_act (s7_formulas st)) (fun modifies =>
     Ok (pre ++ removes ++
         [BulkRemoveRecord T_COLUMNS (map fst (s7_remove st))] ++
         renames ++
@@ -705,7 +713,442 @@ Section Bodies.
         modifies ++
         [BulkUpdateRecord T_COLUMNS (map (fun f => fst (fst (fst f))) (s7_formulas st))
            [(zs "formula", map (fun f => VStr (snd f)) (s7_formulas st))]]))))))))))).
+  (* ---- migration 4: tabPos = row id ---- *)
+  Definition T_TABBAR := zs "_grist_TabBar".
+  Definition m4 (s : tds) : res (list action) :=
+    match lookup T_TABBAR (t_data s) with
+    | None => Err KeyErr
+    | Some td => Ok [add_column T_TABBAR (zs "tabPos") (zs "PositionNumber");
+                     BulkUpdateRecord T_TABBAR (fst td) [(zs "tabPos", map rid_val (fst td))]]
+    end.
+
+  (* ---- migration 39: reconcile the two version-38 schemas ---- *)
+  Definition T_TRIGGERS := zs "_grist_Triggers".
+  Definition m39 (s : tds) : res (list action) :=
+    bind (has_col T_TRIGGERS (zs "memo") s) (fun has_memo =>
+    bind (if has_memo then Ok [] else
+          bind (table_records T_TRIGGERS s) (fun triggers =>
+          Ok [add_column T_TRIGGERS (zs "memo") (zs "Text"); add_column T_TRIGGERS (zs "label") (zs "Text");
+              add_column T_TRIGGERS (zs "enabled") (zs "Bool");
+              BulkUpdateRecord T_TRIGGERS (map fst triggers) [(zs "enabled", map (fun _ => VBool true) triggers)]]))
+         (fun part1 =>
+    bind (has_col T_SECTIONS (zs "description") s) (fun has_desc =>
+    Ok (part1 ++ if has_desc then [] else [add_column T_SECTIONS (zs "description") (zs "Text")])))).
+  (* ---- migration 28: re-declare Attachments columns ---- *)
+  Definition T_ATTACHMENTS := zs "_grist_Attachments".
+  Definition m28_pair (table col : record) : res (list action) :=
+    bind (fld (zs "parentId") col) (fun p =>
+    if negb (py_eq (rid_val (fst table)) p) then Ok [] else
+    bind (fld (zs "type") col) (fun ty =>
+    if negb (py_eq ty (VStr (zs "Attachments"))) then Ok [] else
+    bind (fld (zs "tableId") table) (fun tn => bind (as_str DomainErr tn) (fun tn =>
+    bind (fld (zs "colId") col) (fun cn => bind (as_str DomainErr cn) (fun cn =>
+    Ok [ModifyColumn tn cn [(zs "type", VStr (zs "Attachments"))]])))))).
+  Definition m28 (s : tds) : res (list action) :=
+    bind (table_records T_TABLES s) (fun tables =>
+    bind (table_records T_COLUMNS s) (fun columns =>
+    bind (mapM (fun t => bind (mapM (m28_pair t) columns) (fun l => Ok (concat l))) tables) (fun l =>
+    Ok (add_column T_ATTACHMENTS (zs "timeDeleted") (zs "DateTime") :: concat l)))).
+
+  (* ---- migration 25: field filters move to _grist_Filters ---- *)
+  Definition m25 (s : tds) : res (list action) :=
+    bind (table_records T_FIELDS s) (fun fields =>
+    bind (mapM (fun f => bind (fld (zs "filter") f) (fun fl =>
+                         if negb (val_truthy fl) then Ok [] else
+                         bind (fld (zs "colRef") f) (fun cr => bind (fld (zs "parentId") f) (fun p => Ok [(fl, cr, p)])))) fields)
+         (fun rows =>
+    let rows := concat rows in
+    Ok (AddTable T_FILTERS [mkci (zs "viewSectionRef") (zs "Ref:_grist_Views_section") false [];
+                            mkci (zs "colRef") (zs "Ref:_grist_Tables_column") false [];
+                            mkci (zs "filter") (zs "Text") false []] ::
+        match rows with
+        | [] => []
+        | _ => [BulkAddRecord T_FILTERS (map (fun _ => @None Z) rows)
+                  [(zs "filter", map (fun x => fst (fst x)) rows); (zs "colRef", map (fun x => snd (fst x)) rows);
+                   (zs "viewSectionRef", map (fun x => snd x) rows)]]
+        end))).
+  (* ---- migrations 26, 30, 40: a raw / record-card view section per table ---- *)
+  Definition T_VIEWS := zs "_grist_Views".
+
+  (* numbers as m * 2^e, for < across int and float; +-inf apart; nan is outside the model *)
+  Inductive numv := NFin (m e : Z) | NPosInf | NNegInf.
+  Definition val_num (v : val) : res numv :=
+    match v with
+    | VInt z => Ok (NFin z 0)
+    | VBool b => Ok (NFin (if b then 1 else 0) 0)
+    | VFlt bits =>
+        let neg := Z.leb 9223372036854775808 bits in
+        let e := flt_exp bits in
+        let mant := flt_mant bits in
+        if Z.eqb e 2047 then (if Z.eqb mant 0 then Ok (if neg then NNegInf else NPosInf) else Err DomainErr)
+        else let sig := if Z.eqb e 0 then mant else 4503599627370496 + mant in
+             let ex := if Z.eqb e 0 then -1074 else e - 1075 in
+             Ok (NFin (if neg then - sig else sig) ex)
+    | _ => Err TypeErr              (* '<' not supported between ... *)
+    end.
+  Definition numv_lt (a b : numv) : bool :=
+    match a, b with
+    | NNegInf, NNegInf => false
+    | NNegInf, _ => true
+    | _, NNegInf => false
+    | NPosInf, _ => false
+    | _, NPosInf => true
+    | NFin m1 e1, NFin m2 e2 =>
+        let lo := Z.min e1 e2 in Z.ltb (m1 * 2 ^ (e1 - lo)) (m2 * 2 ^ (e2 - lo))
+    end.
+
+  (* list.sort(key=...) / sorted(..., key=...): stable; keys are computed first, then compared with < *)
+  Fixpoint insert_by {A K} (lt : K -> K -> bool) (x : K * A) (l : list (K * A)) : list (K * A) :=
+    match l with
+    | [] => [x]
+    | y :: l' => if lt (fst y) (fst x) then y :: insert_by lt x l' else x :: l
+    end.
+  Definition sort_by {A K} (lt : K -> K -> bool) (l : list (K * A)) : list A :=
+    map snd (fold_right (insert_by lt) [] l).
+
+  Definition str_lt (a b : str) : bool := negb (str_leb b a).
+
+  (* column.is_visible_column *)
+  Definition is_visible_column (cid : val) : res bool :=
+    bind (hash_key cid) (fun _ =>
+    match cid with
+    | VStr c => Ok (negb (seqb c (zs "id") || seqb c (zs "manualSort")) &&
+                    negb (is_prefix (zs "#") c || is_prefix (zs "gristHelper_") c))
+    | _ => Err AttrErr
+    end).
+
+  Record sec_variant := mkVariant {
+    sv_pre : list action;                                  (* add_column first, if any *)
+    sv_wanted : list (val * record) -> record -> res (option val);   (* None: skip the table; Some title *)
+    sv_parent_key : str;
+    sv_ref_col : str                                       (* the _grist_Tables column that gets the new section id *)
+  }.
+
+  Definition sec_table (vr : sec_variant) (views : list (val * record)) (columns : list record)
+             (st : Z * list action) (table : record) : res (Z * list action) :=
+    let '(new_id, acc) := st in
+    bind (sv_wanted vr views table) (fun w =>
+    match w with
+    | None => Ok st
+    | Some title =>
+        bind (filterM (fun col => bind (fld (zs "parentId") col) (fun p =>
+                                  if negb (py_eq (rid_val (fst table)) p) then Ok false
+                                  else bind (fld (zs "colId") col) is_visible_column)) columns) (fun tcols =>
+        bind (mapM (fun col => bind (fld (zs "parentPos") col) (fun pp => bind (val_num pp) (fun k => Ok (k, (col, pp))))) tcols)
+             (fun keyed =>
+        let sorted := sort_by numv_lt keyed in
+        Ok (new_id + 1,
+            acc ++ [AddRecord T_SECTIONS (Some new_id)
+                      [(zs "tableRef", rid_val (fst table)); (zs "parentId", VInt 0); (zs "parentKey", VStr (sv_parent_key vr));
+                       (zs "title", title); (zs "defaultWidth", VInt 100); (zs "borderWidth", VInt 1)];
+                    UpdateRecord T_TABLES (fst table) [(sv_ref_col vr, VInt new_id)];
+                    BulkAddRecord T_FIELDS (map (fun _ => @None Z) sorted)
+                      [(zs "parentId", map (fun _ => VInt new_id) sorted);
+                       (zs "colRef", map (fun x => rid_val (fst (fst x))) sorted);
+                       (zs "parentPos", map (fun x => snd x) sorted)]])))
+    end).
+
+  Fixpoint sec_loop (vr : sec_variant) views columns (ts : list record) (st : Z * list action) : res (Z * list action) :=
+    match ts with
+    | [] => Ok st
+    | t :: rest => bind (sec_table vr views columns st t) (sec_loop vr views columns rest)
+    end.
+
+  Definition sections_migration (vr : sec_variant) (need_views : bool) (s : tds) : res (list action) :=
+    bind (table_records T_TABLES s) (fun tables =>
+    bind (table_records T_COLUMNS s) (fun columns =>
+    bind (if need_views then table_records T_VIEWS s else Ok []) (fun vrecs =>
+    let views := fold_left (fun acc v => pd_set (rid_val (fst v)) v acc) vrecs [] in
+    bind (next_id (rows_of_model T_SECTIONS s)) (fun new_id =>
+    bind (mapM (fun t => bind (fld (zs "tableId") t) (fun n => bind (as_str TypeErr n) (fun n => Ok (n, t)))) tables) (fun keyed =>
+    bind (sec_loop vr views columns (sort_by str_lt keyed) (new_id, sv_pre vr)) (fun st => Ok (snd st))))))).
+
+  Definition v26 : sec_variant :=
+    mkVariant [add_column T_TABLES (zs "rawViewSectionRef") (zs "Ref:_grist_Views_section")]
+      (fun views table =>
+         bind (fld (zs "primaryViewId") table) (fun pv => bind (hash_key pv) (fun pv =>
+         match pd_get pv views with
+         | Some old_view => if val_truthy pv then bind (fld (zs "name") old_view) (fun n => Ok (Some n)) else Ok None
+         | None => Ok None
+         end)))
+      (zs "record") (zs "rawViewSectionRef").
+  Definition v30 : sec_variant :=
+    mkVariant []
+      (fun _ table => bind (fld (zs "summarySourceTable") table) (fun sst =>
+                      Ok (if val_truthy sst then Some (VStr []) else None)))
+      (zs "record") (zs "rawViewSectionRef").
+  Definition v40 : sec_variant :=
+    mkVariant [add_column T_TABLES (zs "recordCardViewSectionRef") (zs "Ref:_grist_Views_section")]
+      (fun _ table => bind (fld (zs "rawViewSectionRef") table) (fun raw =>
+                      if negb (val_truthy raw) then Ok None else
+                      bind (fld (zs "summarySourceTable") table) (fun sst =>
+                      Ok (if val_truthy sst then None else Some (VStr [])))))
+      (zs "single") (zs "recordCardViewSectionRef").
+  Definition m26 := sections_migration v26 true.
+  Definition m30 := sections_migration v30 false.
+  Definition m40 := sections_migration v40 false.
+  (* ---- migration 1: TabItems from the existing view sections ---- *)
+  Definition T_DOCINFO := zs "_grist_DocInfo".
+  Definition T_TABITEMS := zs "_grist_TabItems".
+
+  Fixpoint dedup_vals (l : list val) (acc : list val) : list val :=     (* a set keeps the first of equal items *)
+    match l with
+    | [] => acc
+    | x :: l' => if pset_mem x acc then dedup_vals l' acc else dedup_vals l' (acc ++ [x])
+    end.
+  (* tuples of two numbers, compared like Python tuples *)
+  Definition pair_lt (a b : numv * numv) : bool :=
+    if numv_lt (fst a) (fst b) then true else if numv_lt (fst b) (fst a) then false else numv_lt (snd a) (snd b).
+  Definition num_pair_key (v : val) : res ((numv * numv) * val) :=
+    match v with
+    | VList [a; b] => bind (val_num a) (fun x => bind (val_num b) (fun y => Ok ((x, y), v)))
+    | _ => Err DomainErr
+    end.
+  Definition seq_ids (n : nat) : list rid := map (fun k => Some (Z.of_nat k)) (seq 1 n).
+
+  Definition m1 (s : tds) : res (list action) :=
+    let mk (id ty : str) := mkci id ty false [] in
+    let a1 := if has T_ATTACHMENTS (t_data s) then [] else
+              [AddTable T_ATTACHMENTS [mk (zs "fileIdent") (zs "Text"); mk (zs "fileName") (zs "Text");
+                                       mk (zs "fileType") (zs "Text"); mk (zs "fileSize") (zs "Int");
+                                       mk (zs "timeUploaded") (zs "DateTime")]] in
+    let a2 := if has T_TABITEMS (t_data s) then [] else
+              [AddTable T_TABITEMS [mk (zs "tableRef") (zs "Ref:_grist_Tables"); mk (zs "viewRef") (zs "Ref:_grist_Views")]] in
+    bind (has_col T_DOCINFO (zs "schemaVersion") s) (fun hv =>
+    let a3 := if hv then [] else [add_column T_DOCINFO (zs "schemaVersion") (zs "Int")] in
+    let a4 := [add_column T_ATTACHMENTS (zs "imageHeight") (zs "Int"); add_column T_ATTACHMENTS (zs "imageWidth") (zs "Int")] in
+    bind (table_records T_SECTIONS s) (fun secs =>
+    bind (mapM (fun sec => bind (fld (zs "tableRef") sec) (fun a => bind (hash_key a) (fun a =>
+                           bind (fld (zs "parentId") sec) (fun b => bind (hash_key b) (fun b => Ok (VList [a; b])))))) secs) (fun pairs =>
+    bind (mapM num_pair_key (dedup_vals pairs [])) (fun keyed =>
+    let rows := sort_by pair_lt keyed in
+    Ok (a1 ++ a2 ++ a3 ++ a4 ++
+        match rows with
+        | [] => []
+        | _ => [ReplaceTableData T_TABITEMS (seq_ids (length rows))
+                  [(zs "tableRef", map (fun p => match p with VList [a; _] => a | _ => VNull end) rows);
+                   (zs "viewRef", map (fun p => match p with VList [_; b] => b | _ => VNull end) rows)]]
+        end))))).
+
+  (* ---- migration 2: TabBar, TableViews, primaryViewId ---- *)
+  Definition T_TABLEVIEWS := zs "_grist_TableViews".
+  Definition val_rid (v : val) : res rid :=
+    match v with VInt z => Ok (Some z) | VNull => Ok None | _ => Err DomainErr end.
+  Definition sort_nums (l : list val) : res (list val) :=
+    bind (mapM (fun v => bind (val_num v) (fun k => Ok (k, v))) l) (fun keyed => Ok (sort_by numv_lt keyed)).
+
+  Fixpoint m2_scan (secs : list record) (pv vt : list (val * val)) : res (list (val * val) * list (val * val)) :=
+    match secs with
+    | [] => Ok (pv, vt)
+    | sec :: rest =>
+        bind (fld (zs "tableRef") sec) (fun tr => bind (hash_key tr) (fun tr =>
+        bind (match pd_get tr pv with
+              | Some _ => Ok pv
+              | None => bind (fld (zs "parentKey") sec) (fun pk =>
+                        if py_eq pk (VStr (zs "record")) then bind (fld (zs "parentId") sec) (fun p => Ok (pd_set tr p pv))
+                        else Ok pv)
+              end) (fun pv' =>
+        bind (fld (zs "parentId") sec) (fun p => bind (hash_key p) (fun p =>
+        m2_scan rest pv' (match pd_get p vt with Some _ => vt | None => pd_set p tr vt end))))))
+    end.
+
+  Definition m2 (s : tds) : res (list action) :=
+    let mk (id ty : str) := mkci id ty false [] in
+    bind (table_records T_SECTIONS s) (fun secs =>
+    bind (m2_scan secs [] []) (fun r =>
+    let '(pv, vt) := r in
+    bind (sort_nums (map fst pv)) (fun pkeys =>
+    bind (mapM val_rid pkeys) (fun prids =>
+    bind (sort_nums (map fst vt)) (fun vkeys =>
+    bind (mapM hash_key (map snd pv)) (fun pvals =>
+    bind (sort_nums (filter (fun v => negb (pset_mem v pvals)) (map fst vt))) (fun related =>
+    Ok [AddTable T_TABBAR [mk (zs "viewRef") (zs "Ref:_grist_Views")];
+        AddTable T_TABLEVIEWS [mk (zs "tableRef") (zs "Ref:_grist_Tables"); mk (zs "viewRef") (zs "Ref:_grist_Views")];
+        add_column T_TABLES (zs "primaryViewId") (zs "Ref:_grist_Views");
+        BulkUpdateRecord T_TABLES prids
+          [(zs "primaryViewId", map (fun k => match pd_get k pv with Some v => v | None => VNull end) pkeys)];
+        ReplaceTableData T_TABBAR (seq_ids (length vkeys)) [(zs "viewRef", vkeys)];
+        ReplaceTableData T_TABLEVIEWS (seq_ids (length related))
+          [(zs "tableRef", map (fun k => match pd_get k vt with Some v => v | None => VNull end) related);
+           (zs "viewRef", related)]]))))))).
+
+  (* ---- migration 20: pages from the views ---- *)
+  Definition T_PAGES := zs "_grist_Pages".
+  Definition view_key_lt (a b : str * numv) : bool :=
+    if seqb (fst a) (fst b) then numv_lt (snd a) (snd b) else str_lt (fst a) (fst b).
+
+  Definition m20 (s : tds) : res (list action) :=
+    let mk (id ty : str) := mkci id ty false [] in
+    bind (table_records T_TABLES s) (fun tables =>
+    let table_map := fold_left (fun acc t => pd_set (rid_val (fst t)) t acc) tables [] in
+    bind (table_records T_TABLEVIEWS s) (fun tvs =>
+    bind ((fix go (tvs : list record) (acc : list (val * val)) : res (list (val * val)) :=
+             match tvs with
+             | [] => Ok acc
+             | tv :: rest =>
+                 bind (fld (zs "tableRef") tv) (fun tr => bind (hash_key tr) (fun tr =>
+                 match pd_get tr table_map with
+                 | None => go rest acc
+                 | Some t => bind (fld (zs "viewRef") tv) (fun vr => bind (hash_key vr) (fun vr =>
+                             bind (fld (zs "tableId") t) (fun tid => go rest (pd_set vr tid acc))))
+                 end))
+             end) tvs []) (fun tvmap =>
+    bind (table_records T_VIEWS s) (fun views =>
+    bind (mapM (fun v => match pd_get (rid_val (fst v)) tvmap with
+                         | Some tid => bind (as_str TypeErr tid) (fun n => bind (val_num (rid_val (fst v))) (fun k => Ok ((n, k), v)))
+                         | None => bind (fld (zs "name") v) (fun nm => bind (as_str TypeErr nm) (fun n => Ok ((n, NFin (-1) 0), v)))
+                         end) views) (fun keyed =>
+    let sorted := sort_by view_key_lt keyed in
+    let ids := seq_ids (length sorted) in
+    Ok [AddTable T_PAGES [mk (zs "viewRef") (zs "Ref:_grist_Views"); mk (zs "pagePos") (zs "PositionNumber");
+                          mk (zs "indentation") (zs "Int")];
+        ReplaceTableData T_PAGES ids
+          [(zs "viewRef", map (fun v => rid_val (fst v)) sorted); (zs "pagePos", map rid_val ids);
+           (zs "indentation", map (fun v => VInt (match pd_get (rid_val (fst v)) tvmap with Some _ => 1 | None => 0 end)) sorted)]]))))).
+  (* ---- migration 3: Derived -> Any, lookupOrAddDerived arguments by keyword ---- *)
+  Definition M3_PATTERN : str :=
+    [40; 92; 119; 43; 41] ++ zs ".lookupOrAddDerived" ++ [92; 40; 40; 46; 42; 63; 41; 92; 41].   (* (\w+).lookupOrAddDerived\((.*?)\) *)
+
+  Definition table_name_of (tables_map : list (val * record)) (c : record) : res str :=
+    bind (fld (zs "parentId") c) (fun p => bind (hash_key p) (fun p =>
+    match pd_get p tables_map with
+    | Some t => bind (fld (zs "tableId") t) (as_str DomainErr)
+    | None => Err KeyErr
+    end)).
+
+  Definition modify_cols (tables_map : list (val * record)) (key : str) (cs : list (record * val)) : res (list action) :=
+    mapM (fun cv => bind (table_name_of tables_map (fst cv)) (fun tn =>
+                    bind (fld (zs "colId") (fst cv)) (fun cid => bind (as_str DomainErr cid) (fun cid =>
+                    Ok (ModifyColumn tn cid [(key, snd cv)]))))) cs.
+
+  Definition retype (tables_map : list (val * record)) (columns : list record) (old new : str) : res (list action) :=
+    bind (filterM (fun c => bind (fld (zs "type") c) (fun t => Ok (py_eq t (VStr old)))) columns) (fun affected =>
+    match affected with
+    | [] => Ok []
+    | _ => bind (modify_cols tables_map (zs "type") (map (fun c => (c, VStr new)) affected)) (fun mods =>
+           Ok (mods ++ [BulkUpdateRecord T_COLUMNS (map fst affected) [(zs "type", map (fun _ => VStr new) affected)]]))
+    end).
+
+  Definition m3 (s : tds) : res (list action) :=
+    bind (table_records T_TABLES s) (fun tables =>
+    let tables_map := fold_left (fun acc t => pd_set (rid_val (fst t)) t acc) tables [] in
+    bind (table_records T_COLUMNS s) (fun columns =>
+    bind (retype tables_map columns (zs "Derived") (zs "Any")) (fun part1 =>
+    bind (mapM (fun c => bind (fld (zs "formula") c) (fun f =>
+                         if negb (val_truthy f) then Ok [] else
+                         match f with
+                         | VStr txt => let nf := re_sub M3_PATTERN [] txt in
+                                       Ok (if seqb nf txt then [] else [(c, VStr nf)])
+                         | _ => Err TypeErr
+                         end)) columns) (fun ups =>
+    let ups := concat ups in
+    match ups with
+    | [] => Ok part1
+    | _ => bind (modify_cols tables_map (zs "formula") ups) (fun mods =>
+           Ok (part1 ++ mods ++ [BulkUpdateRecord T_COLUMNS (map (fun u => fst (fst u)) ups) [(zs "formula", map snd ups)]]))
+    end)))).
+
+  (* ---- migration 17: Image columns become Attachments ---- *)
+  Definition conv_image (v : val) : val :=
+    match v with
+    | VInt z => if Z.ltb 0 z then VList [v] else VList []
+    | VBool true => VList [v]            (* isinstance(True, int) and True > 0 *)
+    | _ => VList []
+    end.
+
+  Definition m17 (s : tds) : res (list action) :=
+    bind (table_records T_TABLES s) (fun tables =>
+    let tables_map := fold_left (fun acc t => pd_set (rid_val (fst t)) t acc) tables [] in
+    bind (table_records T_COLUMNS s) (fun columns =>
+    bind (filterM (fun c => bind (fld (zs "type") c) (fun t => Ok (py_eq t (VStr (zs "Image"))))) columns) (fun affected =>
+    match affected with
+    | [] => Ok []
+    | _ =>
+        bind (modify_cols tables_map (zs "type") (map (fun c => (c, VStr (zs "Attachments"))) affected)) (fun mods =>
+        bind (mapM (fun c => bind (fld (zs "isFormula") c) (fun isf =>
+                             if val_truthy isf then Ok [] else
+                             bind (table_name_of tables_map c) (fun tn =>
+                             match lookup tn (t_data s) with
+                             | None => Err KeyErr
+                             | Some td => bind (fld (zs "colId") c) (fun cid => bind (hash_key cid) (fun cid =>
+                                          match cid with
+                                          | VStr cn => match lookup cn (snd td) with
+                                                       | Some vals => Ok [BulkUpdateRecord tn (fst td) [(cn, map conv_image vals)]]
+                                                       | None => Err KeyErr
+                                                       end
+                                          | _ => Err KeyErr
+                                          end))
+                             end))) affected) (fun datas =>
+        Ok (mods ++ [BulkUpdateRecord T_COLUMNS (map fst affected) [(zs "type", map (fun _ => VStr (zs "Attachments")) affected)]]
+                 ++ concat datas)))
+    end))).
+
+  (* ---- migration 31: new-style names for summary tables ---- *)
+  Definition T_ACLRESOURCES := zs "_grist_ACLResources".
+
+  Definition m31_table (tables_by_ref : list (val * record)) (columns : list record)
+             (st : list val * list (record * str)) (t : record) : res (list val * list (record * str)) :=
+    let '(names, renames) := st in
+    bind (fld (zs "summarySourceTable") t) (fun sst =>
+    if negb (val_truthy sst) then Ok st else
+    bind (hash_key sst) (fun sst =>
+    match pd_get sst tables_by_ref with
+    | None => Err KeyErr
+    | Some src =>
+        bind (filterM (fun c => bind (fld (zs "parentId") c) (fun p => Ok (py_eq p (rid_val (fst t))))) columns) (fun own =>
+        bind (filterM (fun c => bind (fld (zs "summarySourceCol") c) (fun x => Ok (val_truthy x))) own) (fun gb =>
+        bind (mapM (fun c => fld (zs "colId") c) gb) (fun idvals =>
+        bind (fld (zs "tableId") src) (fun stid => bind (as_str TypeErr stid) (fun sname =>
+        bind (mapM (as_str TypeErr) idvals) (fun ids =>
+        let new0 := encode_summary_name sname ids in
+        bind (fld (zs "tableId") t) (fun tid =>
+        if py_eq (VStr new0) tid then Ok st else
+        bind (mapM (as_str AttrErr) names) (fun avoid =>
+        let new_name := pick_table new0 avoid in
+        Ok (names ++ [VStr new_name], renames ++ [(t, new_name)])))))))))
+    end)).
+
+  Fixpoint m31_loop tables_by_ref columns (ts : list record) st :=
+    match ts with
+    | [] => Ok st
+    | t :: rest => bind (m31_table tables_by_ref columns st t) (m31_loop tables_by_ref columns rest)
+    end.
+
+  Definition m31 (s : tds) : res (list action) :=
+    bind (table_records T_COLUMNS s) (fun columns =>
+    bind (table_records T_TABLES s) (fun tables =>
+    bind (table_records T_ACLRESOURCES s) (fun resources =>
+    let tables_by_ref := fold_left (fun acc t => pd_set (rid_val (fst t)) t acc) tables [] in
+    bind (mapM (fun c => bind (fld (zs "parentId") c) hash_key) columns) (fun _ =>
+    bind (mapM (fun t => bind (fld (zs "tableId") t) hash_key) tables) (fun names0 =>
+    bind (m31_loop tables_by_ref columns (map snd tables_by_ref) (dedup_vals names0 [], [])) (fun st =>
+    let renames := snd st in
+    bind (mapM (fun tr => bind (fld (zs "tableId") (fst tr)) (fun n => bind (as_str DomainErr n) (fun n => Ok (n, snd tr)))) renames) (fun rn =>
+    let part1 := map (fun p => RenameTable (fst p) (snd p)) rn ++
+                 match renames with
+                 | [] => []
+                 | _ => [BulkUpdateRecord T_TABLES (map (fun tr => fst (fst tr)) renames) [(zs "tableId", map (fun tr => VStr (snd tr)) renames)]]
+                 end in
+    bind (mapM (fun c => bind (fld (zs "formula") c) (fun f =>
+                         match f with
+                         | VStr txt =>
+                             if negb (is_substring (zs "GristSummary_") txt) then Ok [] else
+                             Ok [UpdateRecord T_COLUMNS (fst c)
+                                   [(zs "formula", VStr (fold_left (fun acc p => re_sub ([92; 98] ++ fst p ++ [92; 98]) (snd p) acc) rn txt))]]
+                         | _ => Err TypeErr
+                         end)) columns) (fun part2 =>
+    bind (mapM (fun r => bind (fld (zs "tableId") r) (fun tid => bind (hash_key tid) (fun tid =>
+                         match find (fun p => py_eq tid (VStr (fst p))) (rev rn) with
+                         | Some p => Ok (match snd p with [] => [] | _ => [UpdateRecord T_ACLRESOURCES (fst r) [(zs "tableId", VStr (snd p))]] end)
+                         | None => Ok []
+                         end))) resources) (fun part3 =>
+    Ok (part1 ++ concat part2 ++ concat part3)))))))))).
 End Bodies.
+
+
+
+
+
 
 
 
@@ -853,6 +1296,9 @@ Definition pre7 (sm : str -> option (str * str)) (s : tds) : bool :=
   has_table_b T_TABLES s && has_table_b T_COLUMNS s &&
   forallb (table_pre7 sm s) (recs T_TABLES s) && forallb (col_pre7 s) (recs T_COLUMNS s).
 
+Definition pre4 (s : tds) : bool := J_b s && has_table_b T_TABBAR s.
+Definition pre39 (s : tds) : bool := J_b s && has_table_b T_TRIGGERS s && has_table_b T_SECTIONS s.
+
 (* ---------- oracle tables and the check used by the generated cases ---------- *)
 Definition jnum_eqb (a b : jnum) : bool :=
   match a, b with
@@ -901,7 +1347,8 @@ Record oracles := mkOracles {
   o_pick_col : list (list str * str);          (* avoid set (any order) -> picked id *)
   o_strj : list (json * str);
   o_summary : list (str * option (str * str));          (* table name -> summary_re.match groups *)
-  o_pick_table : list ((str * list str) * str)          (* (suggested name, avoid set) -> picked table id *)
+  o_pick_table : list ((str * list str) * str);         (* (suggested name, avoid set) -> picked table id *)
+  o_resub : list ((str * str * str) * str)              (* (pattern, replacement, text) -> re.sub result *)
 }.
 
 Definition set_eqb (a b : list str) : bool := forallb (fun x => smem x b) a && forallb (fun x => smem x a) b.
@@ -909,6 +1356,9 @@ Definition tbl_pick (t : list (list str * str)) (avoid : list str) : str :=
   match find (fun p => set_eqb (fst p) avoid) t with Some p => snd p | None => MISSING end.
 Definition tbl_summary (t : list (str * option (str * str))) (name : str) : option (str * str) :=
   match lookup name t with Some o => o | None => None end.
+Definition tbl_resub (t : list ((str * str * str) * str)) (pat repl text : str) : str :=
+  match find (fun p => let '(a, b, c) := fst p in seqb a pat && seqb b repl && seqb c text) t with
+  | Some p => snd p | None => MISSING end.
 Definition tbl_pick_table (t : list ((str * list str) * str)) (name : str) (avoid : list str) : str :=
   match find (fun p => seqb (fst (fst p)) name && set_eqb (snd (fst p)) avoid) t with Some p => snd p | None => MISSING end.
 
@@ -924,12 +1374,26 @@ Definition body_of (o : oracles) (v : Z) : option (tds -> res (list action)) :=
   else if Z.eqb v 29 then Some (m29 parse dumps)
   else if Z.eqb v 10 then Some (m10 parse (tbl_pick (o_pick_col o)) (tbl_dumps (o_strj o)))
   else if Z.eqb v 7 then Some (m7 (tbl_summary (o_summary o)) (tbl_pick_table (o_pick_table o)))
+  else if Z.eqb v 4 then Some m4
+  else if Z.eqb v 3 then Some (m3 (tbl_resub (o_resub o)))
+  else if Z.eqb v 17 then Some m17
+  else if Z.eqb v 31 then Some (m31 (tbl_pick_table (o_pick_table o)) (tbl_resub (o_resub o)))
+  else if Z.eqb v 1 then Some m1
+  else if Z.eqb v 2 then Some m2
+  else if Z.eqb v 20 then Some m20
+  else if Z.eqb v 26 then Some m26
+  else if Z.eqb v 30 then Some m30
+  else if Z.eqb v 40 then Some m40
+  else if Z.eqb v 28 then Some m28
+  else if Z.eqb v 25 then Some m25
+  else if Z.eqb v 39 then Some m39
   else None.
 
 Definition pre_of (o : oracles) (v : Z) : tds -> bool :=
   if Z.eqb v 15 then pre15 else if Z.eqb v 16 then pre16 else if Z.eqb v 29 then pre29 (tbl_parse (o_parse o))
   else if Z.eqb v 34 then pre34 else if Z.eqb v 35 then pre35 else if Z.eqb v 45 then pre45
   else if Z.eqb v 10 then pre10 else if Z.eqb v 7 then pre7 (tbl_summary (o_summary o))
+  else if Z.eqb v 4 then pre4 else if Z.eqb v 39 then pre39
   else fun _ => true.
 
 (* versions whose modelled body does not reproduce the recorded actions on the state it ran on (v), or whose
